@@ -152,7 +152,9 @@ class CounterFlow:
             return ret
 
         def switch_tag_block(t):
-            """call block whose tagged result the switch discriminates, or None"""
+            """call block whose tagged result the switch discriminates - or ("loc", L) when it discriminates a
+            local that is assigned on several paths (`let r = if c { v.pop() } else { None }; match r ..`) -
+            or None"""
             p = mir.op_place(t["o"])
             if p is None:
                 return None
@@ -162,6 +164,8 @@ class CounterFlow:
             o = mir.strip_refs(o[1])
             if o[0] == "call":
                 return o[3]
+            if o[0] == "local":
+                return ("loc", o[1])
             return None
 
         cache = self._body_cache.get(id(body))
@@ -184,9 +188,14 @@ class CounterFlow:
                 tt = body.term(bb)
                 if tt["k"] == "call" and tt.get("d") and tt["d"][0] == 0 and not tt["d"][1]:
                     relevant.add(bb)
-            cache = (relevant, sw_cb, body)
+            phi_locals = {cb0[1] for cb0 in sw_cb.values() if isinstance(cb0, tuple)}
+            for bb in range(body.nblocks):
+                tt = body.term(bb)
+                if tt["k"] == "call" and tt.get("d") and not tt["d"][1] and tt["d"][0] in phi_locals:
+                    relevant.add(bb)
+            cache = (relevant, sw_cb, body, phi_locals)
             self._body_cache[id(body)] = cache
-        relevant, sw_cb, _keep = cache
+        relevant, sw_cb, _keep, phi_locals = cache
 
         steps = 0
         while work:
@@ -211,6 +220,8 @@ class CounterFlow:
                             tg = frozenset(x for x in tags if x[0] != b) | {(b, tag)}
                         items.append((vadd(v, d), tg, tag))
                 for v2, tg, call_tag in items:
+                    if phi_locals:
+                        tg = self._phi_tags(body, b, tg, call_tag, phi_locals)
                     out.add((v2, e or err_here, tg, ret_update(b, ret, tg, call_tag)))
             if on_event is not None:
                 on_event(b, {(v, e) for v, e, _tg, _rt in cur}, {(v, e) for v, e, _tg, _rt in out})
@@ -255,6 +266,37 @@ class CounterFlow:
                     if s not in work:
                         work.append(s)
         return res
+
+    @staticmethod
+    def _phi_tags(body, b, tags, call_tag, phi_locals):
+        """tags of the locals that a later switch discriminates, after block b: set by an Option / Result
+        aggregate, copied by a move, or taken from the tagged result of the call that ends the block"""
+        blk = body.blocks[b]
+        d = dict(tags)
+        changed = False
+        for st in blk["s"]:
+            if st["k"] != "assign" or st["p"][1] or st["p"][0] not in phi_locals:
+                continue
+            r = st["r"]
+            key = ("loc", st["p"][0])
+            if r["k"] == "agg" and r.get("a") == "adt" and r.get("adt") in _TAGGED_ADTS:
+                d[key] = r.get("variant")
+                changed = True
+            elif r["k"] == "use":
+                q = mir.op_place(r["o"])
+                src = d.get(("loc", q[0])) if q is not None and not q[1] else None
+                d[key] = src
+                changed = True
+            else:
+                d[key] = None
+                changed = True
+        t = blk["t"]
+        if t["k"] == "call" and t.get("d") and not t["d"][1] and t["d"][0] in phi_locals:
+            d[("loc", t["d"][0])] = call_tag
+            changed = True
+        if not changed:
+            return tags
+        return frozenset((k, v) for k, v in d.items() if v is not None)
 
     def _feasible(self, body, pv, t, const_args, succ):
         p = mir.op_place(t["o"])
